@@ -264,7 +264,12 @@ def generate(repo):
 
     # sender side of the exit status: fixed-width fields (a generic Message.add would switch to the adaptive
     # marker+mpint form for values >= 0xff000000, which _handle_request's get_int does not read)
-    _pin("Channel.send_exit_status", _norm(_method(chan, "send_exit_status").body), SEND_EXIT)
+    # (after the C22 repair the body starts with a closed test; an open channel runs the same statements)
+    _ses = _norm(_method(chan, "send_exit_status").body)
+    _closed_guard = "if self.closed:\n    return\n"
+    if _ses.startswith(_closed_guard):
+        _ses = _ses[len(_closed_guard):]
+    _pin("Channel.send_exit_status", _ses, SEND_EXIT)
 
     # ---- eof / close --------------------------------------------------------------------------
     _pin("Channel._handle_eof", _norm(_method(chan, "_handle_eof").body), EOF)
